@@ -115,6 +115,10 @@ def numpy_facts():
 def from_attributes_facts(repo):
     tree = ast.parse(open(os.path.join(repo, "numpoly", "construct", "from_attributes.py")).read())
     body = _body(_func(tree, "polynomial_from_attributes"))
+    fn_body = list(body)
+    # an optional leading `if dtype is None and len(coefficients): dtype = numpy.result_type(...)` (common dtype)
+    if len(body) == 6 and isinstance(body[0], ast.If) and ast.unparse(body[0].test) == "dtype is None and len(coefficients)":
+        body = body[1:]
     if len(body) != 5:
         raise TranslatorError(f"polynomial_from_attributes: {len(body)} top-level statements, expected 5")
     post, choose, alloc, write, ret = body
@@ -135,14 +139,22 @@ def from_attributes_facts(repo):
         return isinstance(n, ast.If) and isinstance(n.test, ast.Name) and n.test.id == "coefficients"
     if not is_coeff_test(choose) or not is_coeff_test(write):
         raise TranslatorError("the `if coefficients:` blocks are not where they were")
-    # dtype from the argument, else from the first coefficient
+    # dtype from the argument, else the common dtype (numpy.result_type) of ALL coefficients passed, computed
+    # before the cleaning; the shape from the first coefficient
+    pre = [n for n in fn_body if isinstance(n, ast.If) and ast.unparse(n.test) == "dtype is None and len(coefficients)"]
+    common = (len(pre) == 1 and len(pre[0].body) == 1 and isinstance(pre[0].body[0], ast.Assign)
+              and pre[0].body[0].targets[0].id == "dtype"
+              and ast.unparse(pre[0].body[0].value).replace(" ", "").replace("\n", "")
+              == "numpy.result_type(*[numpy.asarray(coefficient)forcoefficientincoefficients])"
+              and pre[0].lineno < choose.lineno)
     st = choose.body
-    ok = (len(st) == 2 and isinstance(st[0], ast.Assign) and st[0].targets[0].id == "dtype" and isinstance(st[0].value, ast.IfExp)
-          and ast.unparse(st[0].value.test) == "dtype is None" and ast.unparse(st[0].value.body) == "coefficients[0].dtype"
-          and ast.unparse(st[0].value.orelse) == "dtype"
-          and isinstance(st[1], ast.Assign) and st[1].targets[0].id == "shape" and ast.unparse(st[1].value) == "coefficients[0].shape")
-    if not ok:
+    first = (len(st) == 2 and isinstance(st[0], ast.Assign) and st[0].targets[0].id == "dtype" and isinstance(st[0].value, ast.IfExp)
+             and ast.unparse(st[0].value.test) == "dtype is None" and ast.unparse(st[0].value.body) == "coefficients[0].dtype"
+             and ast.unparse(st[0].value.orelse) == "dtype"
+             and isinstance(st[1], ast.Assign) and st[1].targets[0].id == "shape" and ast.unparse(st[1].value) == "coefficients[0].shape")
+    if not first:
         raise TranslatorError("dtype/shape choice for a non-empty coefficient list not recognised")
+    dtype_common = bool(common)
     # empty list: int unless given, shape (), optionally zeros as coefficients
     se = choose.orelse
     if not (len(se) in (2, 3) and isinstance(se[0], ast.Assign) and se[0].targets[0].id == "dtype"
@@ -194,7 +206,7 @@ def from_attributes_facts(repo):
             raise TranslatorError(f"statement not recognised in the write block: {ast.unparse(s)[:60]}")
     if not kernel_used and not fallback:
         raise TranslatorError("no write of the coefficients found")
-    return {"dtype_from_first": True, "empty_default_int": True, "empty_zeros": empty_zeros,
+    return {"dtype_from_first": not dtype_common, "empty_default_int": True, "empty_zeros": empty_zeros,
             "casts": casts or (fallback and not kernel_used), "fallback": fallback and not kernel_unguarded}
 
 
